@@ -2,6 +2,7 @@
 package main
 
 import (
+	"reflect"
 	"strings"
 	"unsafe"
 
@@ -230,6 +231,43 @@ func run(r *Rng, tier string, n int) {
 			m.Extra = append(m.Extra, plainRR(r, &np, commonTypes[r.Intn(len(commonTypes))]))
 		}
 		checkLen(m, true, i < 100 || i%40 == 0, "plain")
+	}
+	// (2b) empty values: the zero value of every type's struct (what unpacking an RDATA-less dynamic
+	// update record gives) and records with one string or slice field emptied; several of them in one
+	// message, so that a one-octet under-estimate uses up the single octet of slack Pack allows itself
+	for _, t := range types {
+		if t == dns.TypeOPT {
+			continue
+		}
+		var cands []dns.RR
+		z := dns.TypeToRR[t]()
+		*z.Header() = dns.RR_Header{Name: "z.example.", Rrtype: t, Class: dns.ClassANY}
+		cands = append(cands, z)
+		rr, info := GenRR(r, pool, t, false)
+		if info.WellFormed {
+			v := Flatten(reflect.ValueOf(rr).Elem())
+			for i := 0; i < v.NumField(); i++ {
+				f := v.Field(i)
+				if v.Type().Field(i).Name == "Hdr" || !f.CanSet() || (f.Kind() != reflect.Slice && f.Kind() != reflect.String) {
+					continue
+				}
+				c := dns.Copy(rr)
+				cf := Flatten(reflect.ValueOf(c).Elem()).Field(i)
+				cf.Set(reflect.Zero(cf.Type()))
+				cands = append(cands, c)
+			}
+		}
+		for _, c := range cands {
+			for _, compress := range []bool{false, true} {
+				m := new(dns.Msg)
+				m.Compress = compress
+				m.SetQuestion("z.example.", t)
+				m.Answer = []dns.RR{dns.Copy(c), dns.Copy(c)}
+				m.Ns = []dns.RR{dns.Copy(c)}
+				checkLen(m, false, false, "empty-values")
+				st["empty_value_messages"]++
+			}
+		}
 	}
 	// (3) messages crossing the 16384-octet pointer limit
 	big := 6
